@@ -268,6 +268,7 @@ func init() {
 	reg(&Property{ID: "C08", Units: []Unit{
 		l3Unit("enums", map[string]int{"KINDS": 4544, "DEPTH": 0, "ENUMTEXT": 1}, "C08.", "string/integer/mixed/string-or-null enums, typed and untyped, inline and via $ref, required and optional; string members are plain words or text with format verbs, quotes, backslashes and a newline"),
 		l3Unit("enums-in-arrays-and-objects", map[string]int{"KINDS": 48, "DEPTH": 1, "ITEMKINDS": 4288}, "C08.", "enums as array items and object members"),
+		l3Unit("integer-enums-with-large-members", map[string]int{"KINDS": 128, "DEPTH": 0, "ENUMBIG": 1, "GRIDMAG": 54}, "C08.", "integer enums (typed and untyped, inline and via $ref) whose members are 1, 2 or odd integers between 2^52 and 2^53 of either sign and zero; document numbers up to 2^54: accepted iff equal to a listed member (the member's neighbours are not members)"),
 	}})
 	reg(&Property{ID: "C19", Units: l3All("C19.")})
 	properties["C19"].Units = append(properties["C19"].Units, Unit{Name: "every-generated-type", Harness: "pkg/generator:HarnessC19AllTypes", Layer: "L3",
